@@ -20,17 +20,20 @@ def item_ok(ip, it, item, seq_pred):
     """item is the element of the iterated sequence at the current position (forward: pos, pos+1; reverse: end-1, end-1)"""
     if not (isinstance(item, tuple) and item[0] == 'elem' and seq_pred(item[1])):
         return False
-    pos = [hv for hv, ev in it.mapping if hv[0] == 'var' and 'iter.pos@' in hv[1]]
-    end = [hv for hv, ev in it.mapping if hv[0] == 'var' and 'iter.end@' in hv[1]]
+    pos = [hv for hv, ev in it.mapping if hv[0] == 'var' and '.pos@' in hv[1]]
+    end = [hv for hv, ev in it.mapping if hv[0] == 'var' and '.end@' in hv[1]]
     if end:
         e = end[0]
         return len(pos) == 1 and item[2] == T.mk_sub(e, I(1)) and ip.entails(it.state, eq(it.cur.get(e, e), T.mk_sub(e, I(1)))) and ip.entails(it.state, eq(it.cur.get(pos[0], pos[0]), pos[0]))
     return len(pos) == 1 and item[2] == pos[0] and ip.entails(it.state, eq(it.cur.get(pos[0], pos[0]), T.mk_add(pos[0], I(1))))
 
 
-def acc_of(it, name):
+def acc_of(it, call):
+    """the accumulator of this iteration: the loop-carried variable whose new value is the result of `call`
+    (whatever it is called: a local, the accumulator of a fold)"""
+    t = calllog.call_term(call)
     for hv, ev in it.mapping:
-        if hv[0] == 'var' and hv[1].startswith(name + '@'):
+        if hv[0] == 'var' and it.cur.get(hv) == t:
             return hv, ev
     return None, None
 
@@ -68,15 +71,17 @@ def r_str(ctx):
         log = calllog.run(ctx, cfg, RM + 'str')
         ip, fn = log.ip, log.fn
         okn = len(log.iterations) >= 1
+        accs = set()
         for it in log.iterations:
             ch = it.named('ReManager::char')
             cc = it.named('ReManager::concat')
-            acc, acc0 = acc_of(it, 're')
+            acc, acc0 = acc_of(it, cc[0]) if len(cc) == 1 else (None, None)
+            accs.add(acc)
             ok = len(it.calls) == 2 and len(ch) == 1 and len(cc) == 1 and acc is not None
             if ok:
                 ok = (item_ok(ip, it, ch[0][1][1], lambda s: s == ('items', ('call', 'smt_strings::SmtString::iter', (A(1),)))) and
                       cc[0][1][1] == calllog.call_term(ch[0]) and cc[0][1][2] == acc and it.cur.get(acc) == calllog.call_term(cc[0]) and
-                      acc0 == ('call', RM + 'epsilon', (A(0),)) and any(hv[0] == 'var' and 'iter.end@' in hv[1] for hv, ev in it.mapping))
+                      acc0 == ('call', RM + 'epsilon', (A(0),)) and any(hv[0] == 'var' and '.end@' in hv[1] for hv, ev in it.mapping))
             okn = okn and ok
             verdict(ctx, ok, 'str/step-prepends-the-character-before-the-suffix-built-so-far', fn, {'calls': calls_txt(it.calls)}, cfg)
         verdict(ctx, okn, 'str/loop-found', fn, None, cfg)
@@ -84,7 +89,7 @@ def r_str(ctx):
             if o.kind != 'ret':
                 continue
             t = ip.to_term(o.state, o.value)
-            ok = t[0] == 'var' and t[1].startswith('re@') and loop_exhausted(ip, o.state)
+            ok = t in accs and t is not None and loop_exhausted(ip, o.state)
             verdict(ctx, ok, 'str/returns-accumulator-after-all-characters', fn, {'returned': T.show(t)[:120], 'leaf_constraints': pc_text(o)}, cfg)
 
 
@@ -94,6 +99,7 @@ def r_concat_list(ctx):
         ip, fn = log.ip, log.fn
         vec = None
         kinds = set()
+        accs = set()
         for it in sorted(log.iterations, key=lambda it_: 0 if it_.named('flatten_concat') else 1):
             fl = it.named('flatten_concat')
             cc = it.named('ReManager::concat')
@@ -104,11 +110,12 @@ def r_concat_list(ctx):
                 kinds.add('flatten')
                 verdict(ctx, ok, 'concat_list/every-operand-flattened-into-the-vector', fn, {'calls': calls_txt(it.calls)}, cfg)
             else:
-                acc, acc0 = acc_of(it, 'result')
+                acc, acc0 = acc_of(it, cc[0]) if len(cc) == 1 else (None, None)
+                accs.add(acc)
                 ok = len(it.calls) == 1 and len(cc) == 1 and acc is not None
                 if ok:
                     ok = (item_ok(ip, it, cc[0][1][1], lambda s: vec is not None and s == vec) and cc[0][1][2] == acc and it.cur.get(acc) == calllog.call_term(cc[0]) and
-                          acc0 in (('call', RM + 'epsilon', (A(0),)), T.fld(A(0), 'epsilon')) and any(hv[0] == 'var' and 'iter.end@' in hv[1] for hv, ev in it.mapping))
+                          acc0 in (('call', RM + 'epsilon', (A(0),)), T.fld(A(0), 'epsilon')) and any(hv[0] == 'var' and '.end@' in hv[1] for hv, ev in it.mapping))
                 kinds.add('fold')
                 verdict(ctx, ok, 'concat_list/fold-from-the-right-over-the-flattened-vector', fn, {'calls': calls_txt(it.calls)}, cfg)
         verdict(ctx, kinds == {'flatten', 'fold'}, 'concat_list/both-loops-found', fn, {'found': sorted(kinds)}, cfg)
@@ -116,7 +123,7 @@ def r_concat_list(ctx):
             if o.kind != 'ret':
                 continue
             t = ip.to_term(o.state, o.value)
-            ok = (t[0] == 'var' and t[1].startswith('result@') or t in (('call', RM + 'epsilon', (A(0),)), T.fld(A(0), 'epsilon'))) and loop_exhausted(ip, o.state)
+            ok = (t in accs and t is not None or t in (('call', RM + 'epsilon', (A(0),)), T.fld(A(0), 'epsilon'))) and loop_exhausted(ip, o.state)
             verdict(ctx, ok, 'concat_list/returns-accumulator-after-both-loops-ran-out', fn, {'returned': T.show(t)[:120], 'leaf_constraints': pc_text(o)}, cfg)
 
 
@@ -242,11 +249,18 @@ def r_simplify(ctx):
         bid = T.fld(bottom, 'id', 'usize')
         n_it = 0
         kinds = set()
+        # the roles of the loop-carried variables, whatever they are called: j = the length the vector is cut to at the
+        # end (argument of truncate), position = the variable counting up by one from 1, previous = the remaining one
+        J = {c[1][1] for o in log.outs if o.kind == 'ret' for c in o.state.calls if c[0].endswith('::truncate') and len(c[1]) > 1}
+
+        def roles(it):
+            j = [hv for hv, ev in it.mapping if hv in J]
+            pos = [hv for hv, ev in counters(ip, it, I(1)) if hv not in J]
+            prev = [hv for hv, ev in it.mapping if hv[0] == 'var' and hv not in J and hv not in pos and T.TYPES.get(hv) not in INT_TYS]
+            return j, prev, pos
         for it in log.iterations:
             n_it += 1
-            j = [hv for hv, ev in it.mapping if hv[0] == 'var' and hv[1].startswith('j@')]
-            prev = [hv for hv, ev in it.mapping if hv[0] == 'var' and hv[1].startswith('previous@')]
-            pos = [hv for hv, ev in it.mapping if hv[0] == 'var' and 'iter.pos@' in hv[1]]
+            j, prev, pos = roles(it)
             ws = sym_writes(it, ip)
             ok = len(j) == 1 and len(prev) == 1 and len(pos) == 1 and not it.calls
             why = 'head variables j / previous / position'
@@ -283,9 +297,10 @@ def r_simplify(ctx):
             ent.add(head)
         for it in log.iterations:
             m = dict(it.mapping)
-            j0 = [ev for hv, ev in it.mapping if hv[0] == 'var' and hv[1].startswith('j@')]
-            p0 = [ev for hv, ev in it.mapping if hv[0] == 'var' and hv[1].startswith('previous@')]
-            i0 = [ev for hv, ev in it.mapping if hv[0] == 'var' and 'iter.pos@' in hv[1]]
+            rj, rp, ri = roles(it)
+            j0 = [m[x] for x in rj]
+            p0 = [m[x] for x in rp]
+            i0 = [m[x] for x in ri]
             ok = len(j0) == 1 and j0[0] in (I(0), I(1)) and len(p0) == 1 and p0[0][0] == 'elem' and p0[0][2] == I(0) and i0 == [I(1)]
             verdict(ctx, ok, 'simplify_set_operation/loop-starts-at-1-with-previous=v[0]-and-j-in-{0,1}', fn, {'entry': [(T.show(a), T.show(b)[:60]) for a, b in it.mapping]}, cfg)
         for head, e in log.entries:
@@ -328,8 +343,11 @@ def r_simplify(ctx):
                     role = 'top-present-gives-{top}'
                 elif names[-1] == 'set_to_singleton':
                     # complementary pair
-                    prevs = [t for f in st.pc for t in T.subterms(f) if t[0] == 'var' and t[1].startswith('previous@')]
-                    poss = [t for f in st.pc for t in T.subterms(f) if t[0] == 'var' and 'iter.pos@' in t[1]]
+                    allr = [roles(it_) for it_ in log.iterations]
+                    hvs = head_vars(st)
+                    prevs = [x for r_ in allr for x in r_[1] if x in hvs or any(x in list(T.subterms(h)) for h in hvs)]
+                    prevs = prevs or [x for r_ in allr for x in r_[1]]
+                    poss = [x for r_ in allr for x in r_[2] if x in hvs]
                     ok = len(names) == 4 and calls[3][1][1] == top and bool(prevs) and bool(poss)
                     if ok:
                         pid_ = T.fld(prevs[0], 'id', 'usize')
@@ -337,8 +355,7 @@ def r_simplify(ctx):
                         ok = bool(curs) and ip.entails(st, AND(eq(T.fld(curs[0], 'id', 'usize'), T.mk_add(pid_, I(1))), eq(('rem', pid_, I(2)), I(0)))) and calls[3][1][0] == curs[0][1]
                     role = 'gives-up-with-{top}-only-for-a-complementary-pair'
                 elif names[-1] == 'truncate':
-                    js = [t for f in st.pc for t in T.subterms(f) if t[0] == 'var' and t[1].startswith('j@')]
-                    ok = len(names) == 4 and loop_exhausted(ip, st) and bool(js) and calls[3][1][1] == js[0]
+                    ok = len(names) == 4 and loop_exhausted(ip, st) and calls[3][1][1] in J and any(calls[3][1][1] in roles(it_)[0] for it_ in log.iterations)
                     role = 'cut-at-j-after-the-last-element'
                 else:
                     ok, role = False, 'unexpected-leaf'
@@ -351,12 +368,19 @@ def r_simplify(ctx):
 def r_contains(ctx):
     """contains(v, x) answers true only when an element of v is x (a false answer merely skips a simplification)."""
     for cfg in ('dev', 'rel'):
-        an = analyse(ctx, cfg, RE + 'contains', [], uninterpreted=lambda p: False)
+        an = analyse(ctx, cfg, RE + 'contains', [], uninterpreted=lambda p: False, summarise=False)
         ip, fn = an.ip, an.fn
         ntrue = 0
+        from .. import loopsum
         for o in an.outs:
             if o.kind != 'ret' or o.value == FALSE:
                 continue
+            if o.value != TRUE and isinstance(o.value, tuple):
+                # answers `cond`: the case where it answers true is this leaf with cond assumed
+                s2 = o.state.clone()
+                s2.assume(o.value)
+                o = X.Outcome('ret', s2, value=TRUE)
+            o = loopsum.summarise(ip, o)
             ntrue += 1
             # the true leaf carries a witness: in closed form (loopsum)  any k. v[k].id == x.id [&& ..]
             wit = [f for f in o.state.pc if f[0] == 'quant' and f[1] == 'any' and f[2] == A(0)]
